@@ -19,14 +19,18 @@ import (
 // node set fit its capacity; every container whose zone changed in this
 // request was told so in this request.
 func VerifC04TAMemory() {
-	_, _, ncpu := verifMachine(0)
+	machine := verifParam("memMachine", 0) // 0: two DRAM nodes; 3: plus a CPU-less PMEM node
+	_, mn, ncpu := verifMachine(machine)
+	nnodes := len(mn)
 	allowed, reserved, isolated := verifSymbolicConstraints(ncpu, 0)
-	caps := []int64{verifNondetInt64("memcap"), verifNondetInt64("memcap")}
+	var caps []int64
 	maxMem := int64(verifParam("maxMem", 1<<20))
-	for _, c := range caps {
+	for i := 0; i < nnodes; i++ {
+		c := verifNondetInt64("memcap")
 		verifAssume(verifAnd(c >= 1, c <= maxMem))
+		caps = append(caps, c)
 	}
-	w := verifNewPolicyMem(0, caps, allowed, reserved, isolated, verifDefaultConfig())
+	w := verifNewPolicyMem(machine, caps, allowed, reserved, isolated, verifDefaultConfig())
 	ma := w.p.memAllocator
 	zonesBefore := map[string]libmem.NodeMask{}
 	ops := verifParam("ops", 2)
@@ -73,9 +77,9 @@ func VerifC04TAMemory() {
 		verifAssert("C04.ta.zone-change-delivered-in-same-request", delivered)
 		// fit: allocations confined to a node set fit its capacity
 		fitZone, fitUnion := true, true
-		for z := libmem.NodeMask(1); z <= 3; z++ {
+		for z := libmem.NodeMask(1); z < libmem.NodeMask(1)<<uint(nnodes); z++ {
 			var used, capacity int64
-			for i := 0; i < 2; i++ {
+			for i := 0; i < nnodes; i++ {
 				if z&(1<<uint(i)) != 0 {
 					capacity += caps[i]
 				}
